@@ -59,3 +59,14 @@ def decoy(lang: str, u: int):
         return Snippet(lines, [("magic-numbers.numeric-literal", 3)], "decoy")
     lines = [f"fn calc_{u}(a{u}: i32) -> i32 {{", "    // thailint: ignore-next-line[magic-numbers]", f"    let b{u} = helper_{u}(a{u});", f"    b{u} * {m}", "}"]
     return Snippet(lines, [("magic-numbers.numeric-literal", 3)], "decoy")
+
+
+def cloneuse(lang: str, u: int):
+    """Rust: `let b = a.clone()` with the source never used afterwards (reported as unnecessary clone) and the same
+    shape with the source used in a later statement (not reported). Whether a name is *used afterwards* is a fact
+    about identifiers, not about words in comments or about longer names that contain the name."""
+    if lang != "rs":
+        return None
+    lines = [f"fn keep_{u}(item{u}: String) -> usize {{", f"    let copy{u} = item{u}.clone();", f"    let total{u} = measure_{u}(copy{u});", f"    total{u}", "}", "",
+             f"fn reuse_{u}(elem{u}: String) -> usize {{", f"    let dup{u} = elem{u}.clone();", f"    let first{u} = measure_{u}(dup{u});", f"    first{u} + elem{u}.len()", "}"]
+    return Snippet(lines, [("clone-abuse.unnecessary-clone", 1)], "cloneuse")
